@@ -50,14 +50,15 @@ def run(chk, tier):
     chk.setcov("refinement_states", r.distinct)
     # 2. edge replay on Map and Set
     plans = [
-        ("map", ["n1", "s1", "z"], ["v1", "v2"], 2, 3),
-        ("set", ["nan", "sl", "z"], ["v"], 2, 3),
+        ("map", ["n1", "slu", "z"], ["v1", "v2"], 2, 3),
+        ("set", ["nan", "sl", "s1"], ["v"], 2, 3),
     ]
     if thorough:
         plans = [
             ("map", ["n1", "s1", "z", "nan"], ["v1", "v2"], 2, 4),
             ("set", ["nan", "sl", "z", "o1"], ["v"], 2, 4),
             ("map", ["su", "y1", "big"], ["v1", "v2"], 3, 3),
+            ("set", ["slu", "s1", "u"], ["v"], 2, 3),
         ]
     traces = 0
     for n, (inst, keys, vals, niter, maxlen) in enumerate(plans):
